@@ -683,6 +683,18 @@ func (e *pathEngine) step(in ssa.Instruction, st *PState) {
 		}
 	}
 	switch x := in.(type) {
+	case *ssa.Alloc:
+		// a fresh cell holds the zero value until something is stored into it
+		if pt, ok := x.Type().Underlying().(*types.Pointer); ok {
+			switch pt.Elem().Underlying().(type) {
+			case *types.Pointer, *types.Interface, *types.Slice, *types.Map, *types.Signature, *types.Chan:
+				st.alias["cell:"+e.vkeyRaw(x)] = "const:nil"
+			case *types.Basic:
+				if isBoolType(pt.Elem()) {
+					st.alias["cell:"+e.vkeyRaw(x)] = "const:false"
+				}
+			}
+		}
 	case *ssa.Store:
 		// local cells (named results spilled by defer, variables captured by closures)
 		if a, ok := x.Addr.(*ssa.Alloc); ok {
